@@ -69,8 +69,23 @@ def single_defs(f: Func) -> Dict[str, ast.expr]:
         elif isinstance(n, (ast.Global, ast.Nonlocal)):
             for nm in n.names:
                 binds[nm] = binds.get(nm, 0) + 2
+    mutated: Set[str] = set()
+    for n in own_nodes(f.node):
+        if isinstance(n, (ast.Assign, ast.AugAssign, ast.Delete)):
+            for t in (n.targets if isinstance(n, (ast.Assign, ast.Delete)) else [n.target]):
+                for x in ast.walk(t):
+                    if isinstance(x, ast.Subscript) and isinstance(x.value, ast.Name):
+                        mutated.add(x.value.id)
+        if isinstance(n, ast.Call) and isinstance(n.func, ast.Attribute) and n.func.attr in MUTATORS:
+            r = n.func.value
+            while isinstance(r, (ast.Subscript, ast.Attribute)):
+                r = r.value
+            if isinstance(r, ast.Name):
+                mutated.add(r.id)
     env = {}
     for name, e in defs.items():
+        if name in mutated:
+            continue  # a container that is filled later is not its initialiser
         if binds.get(name) == 1 and name not in params:
             # no self reference; no calls with side effects assumed pure readers
             if name in norm.names_in(e):
@@ -91,12 +106,12 @@ _PURE_FUNCS = {"len", "sum", "all", "any", "str", "list", "tuple", "isinstance",
 def _pure_call(c: ast.Call) -> bool:
     from . import cfg as _cfg
     n = norm.call_name(c)
-    if n in _cfg.PURE_METHODS or n in _PURE_FUNCS:
+    if n in _cfg.PURE_METHODS or n in _PURE_FUNCS or n in ("mean", "percentile"):
         return True
     if isinstance(c.func, ast.Attribute) and n in ("get", "keys", "values", "items", "copy", "strip", "split", "format", "join", "exists", "resolve"):
         return True
-    if isinstance(c.func, ast.Name) and n[:1].isupper():
-        return True   # constructor of a value object
+    if isinstance(c.func, ast.Name) and n in ("Priority", "Fraction", "Decimal", "RetryStats", "WaitingQueueJob", "PipelineStats", "CSVOperatorRow", "PipelineArrival"):
+        return True   # constructor of a value object (objects with identity, e.g. Executor(...), are never substituted)
     return False
 
 
